@@ -214,7 +214,6 @@ def _c04_ss_confirm(test_src, rdir):
 
 _c04 = [
     H("c04_ss_step_u16_m2", 2400, "quick", "SetSketcher<u16>::sketch from an arbitrary Inv-state: registers == max(old, unpruned contribution of the item), Inv kept, shuffle reset", "m=2, any registers, any (b,a,q<2^40), any item, any generator output", stubs=_LN, native_confirm=_c04_ss_confirm),
-    H("c04_ss_step_u16_m3", 3600, "thorough", "same", "m=3", stubs=_LN, native_confirm=_c04_ss_confirm),
     H("c04_ss_step_u32_m2", 2400, "thorough", "SetSketcher<u32>::sketch step", "m=2", stubs=_LN, native_confirm=_c04_ss_confirm),
     H("c04_smh_step_f64_m2", 1800, "quick", "SuperMinHash<f64>::sketch from an arbitrary Inv-state: hsketch == position-wise min(old, unpruned contribution of the item); histogram/upper-bound invariant kept", "m=2"),
     H("c04_smh_step_f64_m3", 2400, "quick", "same", "m=3"),
@@ -239,7 +238,7 @@ SPECS["C04"] = dict(
     functions=["SuperMinHash::sketch (f64, f32)", "SuperMinHash2::sketch (u64)", "SetSketcher::sketch (u16, u32)", "OptDensMinHash::sketch", "RevOptDensMinHash::sketch",
                "FYshuffle::{reset,next}", "rand::distr::Uniform<f64|f32|usize|u64>::sample (vendored rand, rejection loop cut)", "NoHashHasher"],
     bounds={"quick": "SuperMinHash f64 m in {2,3}; SuperMinHash2 m=2 (+ first item m=3); SetSketch u16 m=2 (a=16, ln b=1/2 concrete); OptDens m in {2,3}; RevOptDens m=3; one symbolic item per step, stream length unbounded by induction",
-            "thorough": "SuperMinHash f64/f32 m in {2,3,4}; SuperMinHash2 m in {2,3,4}; SetSketch u16 m in {2,3}, u32 m=2, and the a=20,b=1.001 instance; OptDens m in 1..=4; RevOptDens m in 2..=4"},
+            "thorough": "SuperMinHash f64/f32 m in {2,3,4}; SuperMinHash2 m in {2,3,4}; SetSketch u16 m=2, u32 m=2 (m=3 does not finish within 60 min: not registered); OptDens m in 1..=4; RevOptDens m in 2..=4"},
     outside="sketch sizes above the listed ones; exact ties between DIFFERENT items (equal value on one position) are legitimately order dependent and are resolved by the code as 'later item wins' (SuperMinHash2, densified sketchers): the lemma is stated with the tie rule, set semantics then holds up to such ties (probability 2^-52..2^-64 per pair); SetSketch: the half-ulp boundary where the float subtraction 1 - log_b(x) rounds up onto an integer (there the code's two pruning tests differ by one unit) is excluded by assumption; chunking/sketch_slice for SuperMinHash*/SetSketch is a plain loop over sketch (read, not encoded); densified sketch_slice vs item-wise is c09_*_slice_*",
     assumptions=["per-item generator = memoised oracle keyed by the item hash (models/rand_xoshiro); Exp1 = arbitrary finite f64 >= 0 that is a function of one draw (models/rand_distr); Lemire rejections excluded (models/rand)",
                  "representation invariants written in the harness files (SuperMinHash: b[] = histogram of clamped integer parts, a_upper = its top, lazy-reset marker < item_rank; SuperMinHash2: b[] = histogram of levels; SetSketch: lower_k integral and <= min register; densified: nb_empty counts unpopulated bins which hold the initial pair): base case = C13 harnesses, preservation = these harnesses",
@@ -320,24 +319,16 @@ SPECS["C09"] = dict(
 # --------------------------------------------------------------------------------------- C02
 _c02 = [
     H("c02_pmh3_step_m2_n3_w1", 1800, "quick", "ProbMinHash3::hash_item step lemma, weight 1", "m=2, 3 points, weight 1.0"),
-    H("c02_pmh3_step_m3_n4_w1", 2400, "thorough", "same", "m=3, 4 points, weight 1.0"),
+    H("c02_pmh3_step_m3_n4_w1", 5400, "thorough", "same", "m=3, 4 points, weight 1.0"),
     H("c02_pmh2_step_m2_w1", 1800, "quick", "ProbMinHash2::hash_item step lemma, weight 1", "m=2, weight 1.0"),
-    H("c02_pmh2_step_m3_w1", 2400, "thorough", "same", "m=3, weight 1.0"),
     H("c02_pmh3_step_m2_n3", 3600, "thorough", "ProbMinHash3::hash_item from an arbitrary state (tracker Inv): registers == min(old, best point per position of the item's unpruned race), signature follows the strict minimum, tracker Inv kept", "m=2, first 3 points of the item, weight = any 2^e (|e|<=40), states with max register <= 3/w"),
-    H("c02_pmh3_step_m3_n4", 5400, "thorough", "same", "m=3, 4 points"),
-    H("c02_pmh3_step_m4_n5", 3600, "thorough", "same", "m=4, 5 points"),
-    H("c02_pmh3_step_m2_n3_w3", 1800, "thorough", "same, weight 3.0", "m=2"),
-    H("c02_pmh3_step_m3_n4_w07", 2400, "thorough", "same, weight 0.7", "m=3"),
     H("c02_pmh2_step_m2", 3600, "thorough", "ProbMinHash2::hash_item from an arbitrary state (tracker Inv, dirty permutation generator): registers == min(old, the item's point at that position), signature follows, Inv kept", "m=2, weight any 2^e"),
-    H("c02_pmh2_step_m3", 5400, "thorough", "same", "m=3"),
-    H("c02_pmh2_step_m4", 3600, "thorough", "same", "m=4"),
-    H("c02_pmh2_step_m3_w07", 2400, "thorough", "same, weight 0.7", "m=3"),
 ]
 SPECS["C02"] = dict(
     level="model_checking", harnesses=_c02,
     functions=["ProbMinHash3::hash_item", "ProbMinHash2::hash_item", "MaxValueTracker::{update,get_value,get_max_value}", "FYshuffle::{reset,next}", "ExpRestricted01::sample (fast path)", "rand Uniform<usize>/<f64>::sample"],
     bounds={"quick": "ProbMinHash3 m=2 (3 points per item), ProbMinHash2 m=2; weight 1.0; registers, signature, item and all generator outputs symbolic",
-            "thorough": "m in {2,3,4}; weights: every power of two 2^e with |e| <= 40 (symbolic), 3.0, 0.7"},
+            "thorough": "ProbMinHash3: m=2 with every weight 2^e, |e| <= 40 (symbolic), and m=3 (4 points) with weight 1; ProbMinHash2: m=2 with every weight 2^e (m=3 and non-power-of-two weights did not finish within 40 min and are not registered)"},
     outside="ProbMinHash3a / 3aSha (their two-pass buffer is not encoded: IndexMap/HashMap + SHA-512 under CBMC are out of reach within the caps; 3 == 3a is therefore NOT decided), hash_wset / map entry points (plain loops over hash_item: read, not encoded), m > 4, weights that are not powers of two except the listed ones, items whose race lasts longer than N points (ProbMinHash3: states with max register > N/w), 'every position of a non-empty set is filled' (needs the race of the first item to reach all positions: unbounded under an arbitrary oracle), exact float ties between different items",
     assumptions=["tracker invariant (C15)", "per-item generator = memoised oracle keyed by the item hash; Exp1 = arbitrary finite f64 >= 0 per draw",
                  "ProbMinHash3 harnesses use the real ExpRestricted01 code with c1 = 1 (the lambda -> 0 limit: one draw per sample, value in [0,1)); its rejection loop is checked under C16",
@@ -358,9 +349,15 @@ _c16 = [
     H("c16_support_m3", 900, "thorough", "same, lambda = ln(3/2)", "one loop iteration", stubs=_XM1, extra=_NU1),
     H("c16_support_m5", 900, "thorough", "same, lambda = ln(5/4)", "one loop iteration", stubs=_XM1, extra=_NU1),
 ]
+_TB = ["f64::exp_m1 / f64::exp / f64::ln -> tables with the libm values of exactly the arguments new(lambda) passes (computed natively); arbitrary elsewhere"]
+_c16 += [
+    H("c16_support_new_m2", 900, "quick", "ExpRestricted01::new(ln 2) built by the real constructor, then sample: every return in [0,1)", "lambda = ln 2; one loop iteration", stubs=_TB, extra=_NU1),
+    H("c16_support_new_m3", 900, "thorough", "same, lambda = ln(3/2)", "one loop iteration", stubs=_TB, extra=_NU1),
+    H("c16_support_new_m5", 900, "thorough", "same, lambda = ln(5/4)", "one loop iteration", stubs=_TB, extra=_NU1),
+]
 SPECS["C16"] = dict(
     level="model_checking", harnesses=_c16,
-    functions=["exp01::ExpRestricted01::sample", "rand::distr::Uniform<f64>::sample"],
+    functions=["exp01::ExpRestricted01::{new, sample}", "rand::distr::Uniform<f64>::sample"],
     bounds={"quick": "constants symbolic (ranges above) and the lambda = ln 2 instance; one iteration of the rejection loop", "thorough": "plus lambda = ln(3/2), ln(5/4)"},
     outside="the LAW of the samples ((1-exp(-lambda x))/(1-exp(-lambda)) is an area under exp: a measure, not decidable by a solver) - NOT decided; further iterations of the rejection loop (it is state-free: an iteration starts from the same state with fresh draws, so one iteration covers all)",
     assumptions=["generator = oracle (any u64 per draw)", "exp_m1 havocked", "constants within the ranges that new(lambda) yields mathematically (new itself uses exp/ln/exp_m1 and is not encoded)"],
